@@ -165,7 +165,7 @@ def _lst(tag, names):
     return f" /begin {tag} " + " ".join(names) + f" /end {tag}" if names else ""
 
 
-def _axis_descr(prefix, refs):
+def _axis_descr(prefix, refs, force_attr=None):
     iq = refs.get(f"{prefix}/AXIS_DESCR.input_quantity")
     cv = refs.get(f"{prefix}/AXIS_DESCR.conversion")
     ap = refs.get(f"{prefix}/AXIS_DESCR/AXIS_PTS_REF.axis_points")
@@ -179,7 +179,7 @@ def _axis_descr(prefix, refs):
         def g(x, d):
             return x[i] if x and i < len(x) else d
         a_ap, a_ca = g(ap, None), g(ca, None)
-        attr = "COM_AXIS" if a_ap else "CURVE_AXIS" if a_ca else "STD_AXIS"
+        attr = force_attr or ("COM_AXIS" if a_ap else "CURVE_AXIS" if a_ca else "STD_AXIS")
         out += f" /begin AXIS_DESCR {attr} {g(iq, 'NO_INPUT_QUANTITY')} {g(cv, 'NO_COMPU_METHOD')} 2 0 100"
         if a_ap:
             out += f" AXIS_PTS_REF {a_ap}"
@@ -233,7 +233,7 @@ def render_elem(e):
         return f"/begin BLOB {n} {li} 0x0 4 /end BLOB"
     if k == "CHARACTERISTIC":
         p = "CHARACTERISTIC"
-        ad = _axis_descr(p, r)
+        ad = _axis_descr(p, r, (e.get("opts") or {}).get("axattr"))
         ctype = "VALUE"
         if ad:
             ctype = {1: "CURVE", 2: "MAP", 3: "CUBOID", 4: "CUBE_4", 5: "CUBE_5"}.get(ad.count("/begin AXIS_DESCR"), "CURVE")
@@ -245,7 +245,7 @@ def render_elem(e):
                 + opt_kw("REF_MEMORY_SEGMENT", p + "/REF_MEMORY_SEGMENT.name") + " /end CHARACTERISTIC")
     if k == "TYPEDEF_CHARACTERISTIC":
         p = "TYPEDEF_CHARACTERISTIC"
-        ad = _axis_descr(p, r)
+        ad = _axis_descr(p, r, (e.get("opts") or {}).get("axattr"))
         ctype = "VALUE"
         if ad:
             ctype = {1: "CURVE", 2: "MAP", 3: "CUBOID", 4: "CUBE_4", 5: "CUBE_5"}.get(ad.count("/begin AXIS_DESCR"), "CURVE")
